@@ -97,6 +97,8 @@ example :
 
 /-! ### 2. the map-call dimension rule -/
 
+/-! ### definitional unfoldings (documentation of the model – "the model accepts iff the model's condition holds" –, not guarantees about the code; their weight is the per-run differential against the real compiler) -/
+
 /-- An output `o : t` of a call is seen by later bindings as `t` (plain call),
 `t[]` (call mapped over arrays) or `map<t>` (call mapped over a typed map); in
 the last case the reference is rejected when `t` already contains a typed map
@@ -110,6 +112,8 @@ theorem mapcall_dim (Γ : Env) (id o : Bytes) (sig : CallSig) (t : Ty)
       | .map => if (dims t).2 = 0 then some (.tmap t) else none := by
   simp only [refType, hc, ho, fieldType_nil, liftMode]
   cases sig.mode <;> rfl
+
+/-! ### 2. the map-call dimension rule (continued) -/
 
 /-- The same rule for projections of any depth: the type of `ID.o.path` is the
 type of the projection out of the *lifted* struct of all outputs. -/
@@ -370,9 +374,11 @@ example :
     evalT (Γ0 .single) ρ0 t e = some (.obj [(ka, .num (.int 3)), (kb, .arr [.arr [.str kx], .null]),
       (kx, .obj [(ka, .num (.int 1))])]) := ⟨by decide, by decide, rfl⟩
 
-/-- `x = split REF` (PARTIAL: `noHole` between the type of the whole collection
-and `t[]` / `map<t>`): the collection is resolved without error and every element
-handed to a fork conforms to the parameter type. -/
+/-- `x = split REF` (PARTIAL: `noHole` between the ELEMENT type of the collection
+and `t` – weaker than `noHole` between the whole collection and `t[]` / `map<t>`,
+which for a typed map would also ask for legal keys although the keys are not
+delivered; `Proofs.TypingRun.refRT_tmap_elems`): the collection is resolved
+without error and every element handed to a fork conforms to the parameter type. -/
 theorem split_ref_sound_rt_partial (Γ : Env) (ρ : Store) (t : Ty) (e : Exp)
     (hρ : StoreOk Γ ρ) (ht : t.wf = true) (he : ∃ id p, e = .self id p ∨ e = .call id p)
     (hv : validBind Γ t (.split e) = true) (hh : bindHoleFreeT Γ t (.split e) = true) :
@@ -438,6 +444,8 @@ theorem storeOk_map_call_key_witness :
     valid (.tmap (.base .int)) (.obj [(kslash, .num (.int 1))]) = true ∧
     valid sig.whole (.obj [(kslash, .obj [(ko, .str kx)])]) = false := by decide
 
+/-! ### definitional unfoldings (documentation of the model – "the model accepts iff the model's condition holds" –, not guarantees about the code; their weight is the per-run differential against the real compiler) -/
+
 /-- `ref_iff` for references into calls -/
 theorem ref_iff_call (Γ : Env) (t : Ty) (id : Bytes) (p : List Bytes) (s : Ty)
     (hr : refType Γ (.call id p) = some s) :
@@ -446,6 +454,8 @@ theorem ref_iff_call (Γ : Env) (t : Ty) (id : Bytes) (p : List Bytes) (s : Ty)
   | base b => simp [validExp, validBase, refOk, hr]
   | _ => simp [validExp, refOk, hr]
 
+/-! ### 3c. what `StoreOk` demands of MAPPED calls (M3) (continued) -/
+
 /-! ### 4. the rejection direction: what an accepted literal / reference must look like -/
 
 /-! (Most of §4, and `mapcall_dim`, `checkCalls_cons_iff`, `validPipeline_iff`, `validPipelineU_iff`,
@@ -453,6 +463,8 @@ theorem ref_iff_call (Γ : Env) (t : Ty) (id : Bytes) (p : List Bytes) (s : Ty)
 `wildcard_expansion_iff`, `wildcard_members_ref_iff` are DEFINITIONAL UNFOLDINGS: documentation of the
 model – "the model accepts iff the model's condition holds" –, not guarantees about the code.  Their
 weight is the per-run differential of the model against the real compiler.) -/
+
+/-! ### definitional unfoldings (documentation of the model – "the model accepts iff the model's condition holds" –, not guarantees about the code; their weight is the per-run differential against the real compiler) -/
 
 /-- string literals are accepted exactly for `string`, `file`, `path` and user file types -/
 theorem str_literal_iff (Γ : Env) (t : Ty) (s : Bytes) :
@@ -540,6 +552,8 @@ theorem struct_literal_iff (Γ : Env) (t : Ty) (kvs : KVs) :
     · rintro ⟨_, _, ⟨rfl, rfl⟩, h⟩; exact h
   | _ => simp [validExp]
 
+/-! ### 4. the rejection direction: what an accepted literal / reference must look like (continued) -/
+
 /-- a literal for a struct type that lacks a declared member is rejected -/
 theorem struct_missing_field_rejected (Γ : Env) (n : Bytes) (fs : Fields) (b : Bool) (kvs : KVs)
     (k : Bytes) (t : Ty) (hk : (k, t) ∈ fs.toList) (hm : kvs.get k = none) :
@@ -571,6 +585,8 @@ example :
     validExp (Γ0 .single) tW (.map true (.cons ka (.int 1) .nil)) = false ∧
     validExp (Γ0 .single) tA (.map true (.cons ka (.int 1) .nil)) = true := by decide
 
+/-! ### definitional unfoldings (documentation of the model – "the model accepts iff the model's condition holds" –, not guarantees about the code; their weight is the per-run differential against the real compiler) -/
+
 /-- A reference that does not resolve – unknown pipeline input, call that is
 not made, non-existent output, non-existent or impossible field projection,
 map of map – is rejected for every parameter type, plain or split. -/
@@ -587,6 +603,8 @@ theorem unresolved_ref_rejected (Γ : Env) (t : Ty) (e : Exp)
     | base b => simp [validExp, validBase, refOk, hr]
     | _ => simp [validExp, refOk, hr]
 
+/-! ### 4. the rejection direction: what an accepted literal / reference must look like (continued) -/
+
 /-- the instances of the catalogue: unknown input, call not made, no such
 output, no such field, projection out of a non-struct, nested map -/
 example :
@@ -596,6 +614,8 @@ example :
     refType (Γ0 .single) (.call cP [ko, kx]) = none ∧
     refType (Γ0 .single) (.call cP [ko, ka, ka]) = none ∧
     refType (Γ0 .map) (.call cP [km]) = none := ⟨rfl, rfl, rfl, rfl, rfl, rfl⟩
+
+/-! ### definitional unfoldings (documentation of the model – "the model accepts iff the model's condition holds" –, not guarantees about the code; their weight is the per-run differential against the real compiler) -/
 
 /-- a reference that resolves is accepted exactly when its type has the shape
 the parameter's type class asks for and is assignable (C17's `assignable`) -/
@@ -625,6 +645,8 @@ theorem call_unknown_or_missing_rejected (Γ : Env) (params : List (Bytes × Ty)
     | true =>
       obtain ⟨b, hb', _⟩ := checkCall_bound Γ params binds h x t hp
       rw [hb] at hb'; cases hb'
+
+/-! ### 4. the rejection direction: what an accepted literal / reference must look like (continued) -/
 
 /-- split sources of one call: arrays with arrays, maps with maps; statically
 known lengths must be equal, statically known key sets must be the same -/
@@ -709,6 +731,8 @@ example :
 
 /-! ### 6. wildcard bindings -/
 
+/-! ### definitional unfoldings (documentation of the model – "the model accepts iff the model's condition holds" –, not guarantees about the code; their weight is the per-run differential against the real compiler) -/
+
 /-- What `* = self` / `* = REF` stands for: exactly the bindings `m = REF.m`
 for the members `m` (pipeline inputs, resp. members of the struct type under
 all array / map dimensions of the reference's type) that are parameters of the
@@ -744,6 +768,8 @@ theorem wildcard_members_ref_iff (Γ : Env) (e : Exp) (ms : List (Bytes × Exp))
     · rintro ⟨t', n, fs, ht, hs, rfl⟩
       cases ht
       simp [hs]
+
+/-! ### 6. wildcard bindings (continued) -/
 
 /-- a wildcard over something that is not a struct (or does not resolve) is rejected -/
 theorem wildcard_not_struct_rejected (Γ : Env) (params : List (Bytes × Ty))
@@ -850,6 +876,8 @@ example :
 
 /-! ### 7. modifiers -/
 
+/-! ### definitional unfoldings (documentation of the model – "the model accepts iff the model's condition holds" –, not guarantees about the code; their weight is the per-run differential against the real compiler) -/
+
 /-- The exact acceptance condition of `Modifiers.compile`: no modifier twice in
 `using`; `disabled` is a valid binding for a `bool` (a reference to a `bool`,
 possibly through the `.default` rewrite); a keyword modifier is not repeated in
@@ -873,6 +901,8 @@ theorem modsOk_iff (Γ : Env) (callee : Callee) (binds : List (Bytes × Bind)) (
        (effective m.kwPreflight (usingVal 1 m.usings) && !callee.outs.toList.isEmpty) = false) := by
   simp only [modsOk, List.isEmpty_iff]
   exact modErrs_nil_iff Γ callee binds w m
+
+/-! ### 7. modifiers (continued) -/
 
 /-- SOUNDNESS of `disabled` (FULL strength – `bool` has no assignability hole):
 in a conforming store the modifier of an accepted call evaluates, and to a
@@ -937,6 +967,8 @@ example :
 
 /-! ### 8. retain lists -/
 
+/-! ### definitional unfoldings (documentation of the model – "the model accepts iff the model's condition holds" –, not guarantees about the code; their weight is the per-run differential against the real compiler) -/
+
 /-- a stage's `retain (…)`: every name is an out parameter whose type is not `KindIsNotFile` -/
 theorem stageRetain_iff (outs : Fields) (ids : List Bytes) :
     stageRetainOk outs ids = true ↔ ∀ id ∈ ids, ∃ t, outs.get id = some t ∧ fileKind t ≠ .notFile := by
@@ -965,6 +997,8 @@ theorem pipeRetain_iff (Γ : Env) (refs : List Exp) :
     obtain ⟨t, hg, hk⟩ := h e he
     simpa [hg, retainable] using hk
 
+/-! ### 8. retain lists (continued) -/
+
 example :
     pipeRetainOk (Γ0 .single) [.call cP [ko, kb], .call cP [ko], .self kx []] = true ∧
     pipeRetainOk (Γ0 .single) [.call cP [ko, ka]] = false ∧
@@ -973,6 +1007,8 @@ example :
     stageRetainOk (.cons ko tW (.cons km (.tmap (.base .int)) .nil)) [km] = false := by decide
 
 /-! ### 9. pipelines: calls in dependency order, return bindings, nesting -/
+
+/-! ### definitional unfoldings (documentation of the model – "the model accepts iff the model's condition holds" –, not guarantees about the code; their weight is the per-run differential against the real compiler) -/
 
 /-- one step of `Pipeline.compile`: the call's name is new, its modifiers and
 bindings are accepted in the environment of the calls before it, and the rest is
@@ -1029,6 +1065,8 @@ theorem validPipeline_iff (p : Pipeline) :
       cases ht : pipeRetainOk Γ p.retain with
       | false => simp [hr, ht]
       | true => simp [hr, ht]
+
+/-! ### 9. pipelines: calls in dependency order, return bindings, nesting (continued) -/
 
 /-- RETURN BINDINGS: each declared output of an accepted pipeline is bound
 exactly once, by a binding valid for its type, and nothing else is bound. -/
@@ -1108,6 +1146,8 @@ example :
 
 /-! ### 10. unused inputs and the top-level call statement -/
 
+/-! ### definitional unfoldings (documentation of the model – "the model accepts iff the model's condition holds" –, not guarantees about the code; their weight is the per-run differential against the real compiler) -/
+
 /-- with the `UnusedInputError` check: accepted exactly when accepted without
 it and every input is used by some call binding, modifier or return binding -/
 theorem validPipelineU_iff (p : Pipeline) :
@@ -1134,6 +1174,8 @@ theorem unused_input_iff (p : Pipeline) (x : Bytes) :
     x ∈ unusedInputs p ↔ x ∈ p.ins.map Prod.fst ∧ x ∉ usedInputs p := by
   simp [unusedInputs, List.mem_filter]
 
+/-! ### 10. unused inputs and the top-level call statement (continued) -/
+
 /-- a reference `self.x…` anywhere inside a written binding of a call uses `x`
 (with or without a wildcard after the written bindings) -/
 theorem binding_uses_input (p : Pipeline) (c : CallStm) (k : Bytes) (b : Bind) (x : Bytes)
@@ -1157,6 +1199,8 @@ example :
     unusedInputs (mk (.self ka [])) = [kb] ∧ validPipeline (mk (.self ka [])) = true ∧
       validPipelineU (mk (.self ka [])) = false := by decide
 
+/-! ### definitional unfoldings (documentation of the model – "the model accepts iff the model's condition holds" –, not guarantees about the code; their weight is the per-run differential against the real compiler) -/
+
 /-- exact acceptance condition of a top-level `call` statement -/
 theorem validTop_iff (c : CallStm) :
     validTop c = true ↔
@@ -1169,6 +1213,8 @@ theorem validTop_iff (c : CallStm) :
     cases hu : c.mods.usings <;>
     cases hd : usingDisabled c.mods.usings <;>
     cases hp : effective c.mods.kwPreflight (usingVal 1 c.mods.usings) <;> simp_all
+
+/-! ### 10. unused inputs and the top-level call statement (continued) -/
 
 /-- outside a pipeline nothing resolves: a top-level call with a binding that is
 a reference (plain or split) is rejected -/
@@ -1251,7 +1297,8 @@ conform, the struct of outputs an accepted pipeline delivers – every declared
 output resolved at its declared type – is produced without error and is a valid
 value of the pipeline's output struct type.  This is ONE invocation of the
 pipeline; that the environments `checkCalls` builds are conforming stores for
-every call of every nesting level is NOT a theorem (see the manifest note). -/
+every call of every nesting level is the content of `program_sound_partial` (§12),
+not of this theorem. -/
 theorem return_sound_rt_partial (Γ : Env) (ρ : Store) (name : Bytes) (outs : Fields)
     (ret : List (Bytes × Bind)) (w : Option Wild)
     (hρ : StoreOk Γ ρ) (hwf : (Ty.struct name outs).wf = true)
@@ -1287,10 +1334,22 @@ example :
 
 /-! ### 12. THE HEADLINE AS ONE THEOREM: whole programs -/
 
-/-- PARTIAL (hypotheses inside `progOk`: `noHole` at every reference – the C17
-holes F9 / F10 –, and no MAP call of a callable with file-typed outputs – fork
-keys would have to be legal file names, audit M3; both are decidable and are
-evaluated on every accepted generated program, driver op `C07.prog`).
+/-- PARTIAL (hypotheses inside `progOk`, all decidable and evaluated on every
+accepted generated program by driver op `C07.prog`:
+  * `noHole` at every reference – the C17 holes F9 / F10; for a `split`
+    reference only between the ELEMENT types (`bindHoleFreeT`: the keys of a typed
+    map that is split over are not delivered, their legality is not needed);
+  * a MAP call of a callable with file-typed outputs (the fork keys become keys of
+    a `map<struct with files>` and must be legal file names, audit M3) has
+    STATICALLY KNOWN LEGAL KEYS: every split argument is a map literal with
+    legal keys (`staticLegalKeys`; lemma `fork_keys_static`). Map calls over
+    run-time maps of callables without file-typed outputs carry no condition;
+  * NO REFERENCE IS COMPOSED INTO AN UNTYPED MAP (`umapPipe`, §13): a binding into
+    a type containing the untyped `map` is reference-free, or a bare reference to
+    an output of a stage that is not map-called with static keys, or a bare
+    reference to an input of the top pipeline.  This stands in for what the model
+    does NOT model: `MakePipelineCallGraph` composes bindings across pipeline
+    boundaries and refuses references inside untyped maps (N1, F-C07-UMAP).)
 
 For every program `P` (pipeline definitions) with top-level call `top` that the
 compiler's rules accept – `validTop`, `validPipelineU` of every definition,
@@ -1301,15 +1360,23 @@ IF every invocation of every STAGE the program calls returns outputs that
 conform to the stage's declared output types (`OracleOk` – the only assumption
 about the outside world),
 
-THEN the CHECKED run of the whole program succeeds: `run` resolves every binding
-of every call of every pipeline, in every fork of every mapped call, at every
-nesting level, with the faithful run-time model (`deliveredT` = `Path` with the
-destination peeled, leaf-wise `FilterJson`; literals element-wise), FAILS if a
-resolution fails or if a delivered value does not validate against the declared
-type of the parameter it is bound to (`argLists`), resolves every pipeline's
-return bindings at the declared output types – and the top-level outputs are a
-valid value of the declared output struct (`t`, `t[]` or `map<t>` for a mapped
-top-level call).
+THEN the CHECKED run of the whole program DOES NOT FAIL (`Res.fail`): `run`
+evaluates the `disabled` modifier of every call (`disabledRT`; a disabled call is
+NOT invoked and delivers null outputs – `disabled_call_delivers_null`), resolves
+every binding of every enabled call of every pipeline, in every fork of every
+mapped call, at every nesting level, with the faithful run-time model
+(`deliveredT` = `Path` with the destination peeled, leaf-wise `FilterJson`;
+literals element-wise), FAILS if a resolution fails or if a delivered value
+does not validate against the declared type of the parameter it is bound to
+(`argLists`), resolves every pipeline's return bindings at the declared output
+types – and EITHER the top-level outputs are a valid value of the declared
+output struct (`t`, `t[]` or `map<t>` for a mapped top-level call), OR the run
+stopped where the real run time stops BY DESIGN: at a call whose `disabled`
+modifier resolved to NULL (`Res.nullDisabled`; `Fork.disabled`: "disabled is
+bound to a null value, which is not permitted"). Null conforms to `bool` as to
+every type, so no static check and no assumption on the stages can exclude
+this (`disabled_null_witness`); programs without `disabled` modifiers never stop
+(`program_sound_no_disabled_partial`).
 
 Proof: induction over the calls of a body in dependency order
 (`stepCall_sound`, `runCalls_sound`: the store invariant `StoreOk` is
@@ -1317,11 +1384,65 @@ established call by call, not assumed) inside an induction over the nesting
 depth (`run_sound`). -/
 theorem program_sound_partial (P : Prog) (O : Oracle) (top : CallStm) (n : Nat)
     (hO : OracleOk P top O) (hP : progOk P top = true) (hn : fits P n top.callee = true) :
+    ∃ sh, checkStm emptyEnv top = some sh ∧
+      (runProgram P O n top = .nullDisabled ∨
+       ∃ out, runProgram P O n top =
+          .ok ({ self := [], calls := [(top.id, top.sig sh)] }, { self := [], calls := [(top.id, out)] }) ∧
+        valid (top.sig sh).whole out = true) :=
+  runProgram_sound P O top n hO hP hn
+
+/-- the statement of rounds 5–6, for programs without `disabled` modifiers
+(`noDisabled`, decidable): the checked run SUCCEEDS and the top-level outputs
+conform (same PARTIAL hypotheses as `program_sound_partial`) -/
+theorem program_sound_no_disabled_partial (P : Prog) (O : Oracle) (top : CallStm) (n : Nat)
+    (hO : OracleOk P top O) (hP : progOk P top = true) (hn : fits P n top.callee = true)
+    (hd : noDisabled P top = true) :
     ∃ sh out, checkStm emptyEnv top = some sh ∧
       runProgram P O n top =
-        some ({ self := [], calls := [(top.id, top.sig sh)] }, { self := [], calls := [(top.id, out)] }) ∧
-      valid (top.sig sh).whole out = true :=
-  runProgram_sound P O top n hO hP hn
+        .ok ({ self := [], calls := [(top.id, top.sig sh)] }, { self := [], calls := [(top.id, out)] }) ∧
+      valid (top.sig sh).whole out = true := by
+  obtain ⟨sh, hchk, h⟩ := runProgram_sound P O top n hO hP hn
+  rcases h with hnd | ⟨out, hr, hv⟩
+  · exact absurd hnd (runProgram_nd P O top n hd)
+  · exact ⟨sh, out, hchk, hr, hv⟩
+
+/-- the `disabled` modifier of an accepted call never FAILS to evaluate at run
+time: it resolves to a boolean – or to null, where the run time stops by design.
+Part of `program_sound_partial`. -/
+theorem disabled_evaluates (Γ : Env) (ρ : Store) (hρ : StoreOk Γ ρ) (c : CallStm) (sh : Option SplitShape)
+    (hchk : checkStm Γ c = some sh)
+    (hw : ∀ e, usingDisabled c.mods.usings = some e → e.wf = true) :
+    disabledRT Γ ρ c.mods = .nullDisabled ∨ ∃ b, disabledRT Γ ρ c.mods = .ok b := by
+  have hm : modsOk Γ c.callee c.binds c.wild c.mods = true := by
+    by_cases hm : modsOk Γ c.callee c.binds c.wild c.mods = true
+    · exact hm
+    · simp [checkStm, hm] at hchk
+  exact disabledRT_sound Γ ρ hρ c.callee c.binds c.wild c.mods hm hw
+
+/-! ### definitional unfoldings (documentation of the model – "the model accepts iff the model's condition holds" –, not guarantees about the code; their weight is the per-run differential against the real compiler) -/
+
+/-- a disabled call is not invoked (the runner `rc` does not occur on the right)
+and its outputs are null – whatever the bindings of the call are -/
+theorem disabled_call_delivers_null (rc : Runner) (Γ : Env) (ρ : Store) (c : CallStm) (sh : Option SplitShape)
+    (bs : List (Bytes × Bind)) (hchk : checkStm Γ c = some sh)
+    (hab : allBinds Γ c.callee.params c.binds c.wild = some bs) (hd : disabledRT Γ ρ c.mods = .ok true) :
+    stepCall rc Γ ρ c =
+      .ok ({ Γ with calls := Γ.calls ++ [(c.id, c.sig sh)] }, { ρ with calls := ρ.calls ++ [(c.id, .null)] }) := by
+  simp [stepCall, hchk, hab, hd]
+
+/-! ### 12. THE HEADLINE AS ONE THEOREM: whole programs (continued) -/
+
+/-- the static shape of a map call and its run-time fork keys (audit M3): if every
+split argument of the call is a map literal with `n` legal keys
+(`staticLegalKeys`), then the key of every fork the run creates (`splitKeys`,
+`nforks` of the evaluated argument lists) is a legal file name -/
+theorem fork_keys_static (Γ : Env) (ρ : Store) (bs : List (Bytes × Bind)) (n : Nat)
+    (params : List (Bytes × Ty)) (args : List (Bytes × Bool × List J))
+    (hk : staticLegalKeys n params bs = true) (ha : argLists Γ ρ bs params = some args) :
+    ∀ i, i < nforks args → legalName ((splitKeys Γ ρ params bs).getD i []) = true :=
+  fork_keys_legal Γ ρ bs n params args hk ha
+
+/-! ### definitional unfoldings (documentation of the model – "the model accepts iff the model's condition holds" –, not guarantees about the code; their weight is the per-run differential against the real compiler) -/
 
 /-- what "the checked run succeeds" means for one call: every value in the
 argument lists has been validated against its parameter's declared type
@@ -1354,6 +1475,8 @@ theorem argLists_checked (Γ : Env) (ρ : Store) (bs : List (Bytes × Bind)) :
             · obtain ⟨t', hm, hv⟩ := argLists_checked Γ ρ bs r as hr a ha
               exact ⟨t', List.mem_cons_of_mem _ hm, hv⟩
         · simp [hc] at h
+
+/-! ### 12. THE HEADLINE AS ONE THEOREM: whole programs (continued) -/
 
 /-! a three-level program: `TOP` calls `L1`, which MAP-calls `L2` over an array
 (one element is the pipeline's input), which calls the stage `P` with a WILDCARD
@@ -1389,7 +1512,146 @@ example :
     progOk prog3 top3 = true ∧ fits prog3 4 top3.callee = true ∧ fits prog3 3 top3.callee = false ∧
     valid (.struct cP stP.outs) (oracle3 cP []) = true ∧
     (runProgram prog3 oracle3 4 top3).map (fun s => s.2.calls) =
-      some [(nTop, .obj [(kb, .arr [.obj [(kx, .num (.int 5))], .obj [(kx, .num (.int 5))]])])] :=
-  ⟨by decide, by decide, by decide, by decide, rfl⟩
+      .ok [(nTop, .obj [(kb, .arr [.obj [(kx, .num (.int 5))], .obj [(kx, .num (.int 5))]])])] ∧
+    noDisabled prog3 top3 = true :=
+  ⟨by decide, by decide, by decide, by decide, rfl, by decide⟩
+
+/-! a program with a `disabled` modifier and a map call with statically known
+keys of a stage with a FILE output:
+`pipeline Q(in bool d, out map<file> r) { map call F(a = split {"a": 1, "b": 2}) using (disabled = self.d)  return (r = F.f) }` -/
+private abbrev nQ : Bytes := [0x51]
+private abbrev nF : Bytes := [0x46]
+private abbrev kd : Bytes := [0x64]
+private abbrev kf : Bytes := [0x66]
+private abbrev kr : Bytes := [0x72]
+private abbrev stF : Callee := { name := nF, isStage := true, params := [(ka, .base .int)], outs := .cons kf (.base .file) .nil }
+private abbrev litKeys (k2 : Bytes) : Exp := .map false (.cons ka (.int 1) (.cons k2 (.int 2) .nil))
+private abbrev pQ (k2 : Bytes) : Pipeline :=
+  { name := nQ, ins := [(kd, .base .bool)], outs := .cons kr (.tmap (.base .file)) .nil,
+    calls := [{ id := nF, callee := stF, binds := [(ka, .split (litKeys k2))], wild := none, mods := { kwLocal := false, kwPreflight := false, kwVolatile := false, usings := [.dis (.self kd [])] } }],
+    ret := [(kr, .plain (.call nF [kf]))], retWild := none, retain := [] }
+private abbrev topQ (k2 : Bytes) (d : Exp) : CallStm := { id := nQ, callee := (pQ k2).callee, binds := [(kd, .plain d)], wild := none, mods := noMods }
+private abbrev oracleF : Oracle := fun _ _ => .obj [(kf, .str kx)]
+/-- the key `a/b` -/
+private abbrev kSlash : Bytes := [0x61, 0x2F, 0x62]
+
+/-- non-vacuity of the round-7 extensions of `program_sound_partial`: with
+`d = false` the two forks run (`r = {"a": "x", "b": "x"}`, a valid `map<file>`
+because the literal keys are legal names); with `d = true` the stage is not
+invoked and `r = null`; and the same program
+with the literal key `a/b` is accepted by the compiler's rules but is NOT `progOk`
+(the hypothesis that remains of M3) – its run delivers an invalid `map<file>`. -/
+example :
+    progOk { pipes := [pQ kb] } (topQ kb (.bool false)) = true ∧
+    progOk { pipes := [pQ kb] } (topQ kb (.bool true)) = true ∧
+    (runProgram { pipes := [pQ kb] } oracleF 2 (topQ kb (.bool false))).map (fun s => s.2.calls) =
+      .ok [(nQ, .obj [(kr, .obj [(ka, .str kx), (kb, .str kx)])])] ∧
+    (runProgram { pipes := [pQ kb] } oracleF 2 (topQ kb (.bool true))).map (fun s => s.2.calls) =
+      .ok [(nQ, .obj [(kr, .null)])] ∧
+    validPipelineU (pQ kSlash) = true ∧ validTop (topQ kSlash (.bool false)) = true ∧
+    progOk { pipes := [pQ kSlash] } (topQ kSlash (.bool false)) = false ∧
+    (runProgram { pipes := [pQ kSlash] } oracleF 2 (topQ kSlash (.bool false))).map (fun s => s.2.calls) =
+      .ok [(nQ, .obj [(kr, .obj [(ka, .str kx), (kSlash, .str kx)])])] ∧
+    valid (.struct nQ (pQ kSlash).outs) (.obj [(kr, .obj [(ka, .str kx), (kSlash, .str kx)])]) = false :=
+  ⟨by decide, by decide, rfl, rfl, by decide, by decide, by decide, rfl, by decide⟩
+
+/-- the `nullDisabled` alternative of `program_sound_partial` is real: the
+program satisfies every hypothesis, `d = null` conforms to `bool`, and the
+run stops at the call `F` (the real run time: "disabled is bound to a null
+value, which is not permitted"; a null known at invocation is refused by
+`resolveDisableExp` – replayed by the harness, `c07DisabledRuntime`) -/
+theorem disabled_null_witness :
+    progOk { pipes := [pQ kb] } (topQ kb .null) = true ∧ fits { pipes := [pQ kb] } 2 (topQ kb .null).callee = true ∧
+    valid (.base .bool) .null = true ∧
+    (runProgram { pipes := [pQ kb] } oracleF 2 (topQ kb .null)).map (fun s => s.2.calls) = .nullDisabled :=
+  ⟨by decide, by decide, by decide, rfl⟩
+
+/-- the weakened split hypothesis: splitting over a `map<string>` INPUT into a
+`file` parameter needs no legal keys (the keys are not delivered) – the hypothesis
+`bindHoleFreeT` holds, although `noHole (map<file>) (map<string>)` (what rounds
+5–6 required) does not -/
+example :
+    let Γ : Env := { self := [(km, .tmap (.base .string))], calls := [] }
+    validBind Γ (.base .file) (.split (.self km [])) = true ∧
+    bindHoleFreeT Γ (.base .file) (.split (.self km [])) = true ∧
+    noHole (.tmap (.base .file)) (.tmap (.base .string)) = false ∧
+    deliveredT Γ { self := [(km, .obj [(kSlash, .str kx)])], calls := [] } (.base .file) (.split (.self km [])) =
+      some [.str kx] :=
+  ⟨by decide, by decide, by decide, rfl⟩
+
+/-! ### 13. what the whole-program theorem does NOT model: composed bindings (audit pass 2, N1)
+
+The program of the second audit pass (TestAud2SplitNestedMergeUntypedMap):
+
+    pipeline INNER(in map<int> xs, out map<int> r) { map call ECHO(what = split self.xs)  return (r = ECHO.r) }
+    pipeline P(out map[] r) { call GEN()  map call INNER(xs = split GEN.r)
+                              map call CONS(what = split INNER.r)  return (r = CONS.r) }      -- CONS(in map what)
+
+is accepted by the compile-time rules, satisfied EVERY hypothesis of
+`program_sound_partial` as of round 7, and the model's checked run delivers
+`[{"k":1},{"l":2}]` – while the real mrp PANICKED in `TopNode.resolveMerge`
+("invalid type for merge …: map"), and its variant `map[] what = INNER.r` could
+not be invoked.  Cause: the run time never materialises `INNER.r`; the bindings
+are composed across the pipeline boundary into a merge expression which a
+second, type-directed resolver resolves.  Repaired in the code (db7ffe5,
+5969c07: with forks known at run time both programs now run, replayed by
+harness/c07_merge.go in Tier A); with STATICALLY known forks the merge is
+expanded to a map literal of references, which the resolver refuses inside an
+untyped map by design (known finding F-C07-UMAP).  The model does not model the
+composition; `progOk` now EXCLUDES (conservatively, `umapPipe`) every binding
+into a type containing the untyped `map` whose composed form can be such a
+literal – this program among them. -/
+private abbrev n1Kwhat : Bytes := [0x77]
+private abbrev n1Kres : Bytes := [0x72]
+private abbrev n1Kxs : Bytes := [0x78]
+private abbrev n1NGEN : Bytes := [0x47]
+private abbrev n1NECHO : Bytes := [0x45]
+private abbrev n1NCONS : Bytes := [0x43]
+private abbrev n1NINNER : Bytes := [0x49]
+private abbrev n1NP : Bytes := [0x50]
+private abbrev n1TMI : Ty := .tmap (.base .int)
+private abbrev n1StGEN : Callee := { name := n1NGEN, isStage := true, params := [], outs := .cons n1Kres (.arr n1TMI) .nil }
+private abbrev n1StECHO : Callee := { name := n1NECHO, isStage := true, params := [(n1Kwhat, .base .int)], outs := .cons n1Kres (.base .int) .nil }
+private abbrev n1StCONS : Callee := { name := n1NCONS, isStage := true, params := [(n1Kwhat, .base .map)], outs := .cons n1Kres (.base .map) .nil }
+private abbrev n1PINNER : Pipeline :=
+  { name := n1NINNER, ins := [(n1Kxs, n1TMI)], outs := .cons n1Kres n1TMI .nil,
+    calls := [{ id := n1NECHO, callee := n1StECHO, binds := [(n1Kwhat, .split (.self n1Kxs []))], wild := none, mods := noMods }],
+    ret := [(n1Kres, .plain (.call n1NECHO [n1Kres]))], retWild := none, retain := [] }
+private abbrev n1PP : Pipeline :=
+  { name := n1NP, ins := [], outs := .cons n1Kres (.arr (.base .map)) .nil,
+    calls := [
+      { id := n1NGEN, callee := n1StGEN, binds := [], wild := none, mods := noMods },
+      { id := n1NINNER, callee := n1PINNER.callee, binds := [(n1Kxs, .split (.call n1NGEN [n1Kres]))], wild := none, mods := noMods },
+      { id := n1NCONS, callee := n1StCONS, binds := [(n1Kwhat, .split (.call n1NINNER [n1Kres]))], wild := none, mods := noMods }],
+    ret := [(n1Kres, .plain (.call n1NCONS [n1Kres]))], retWild := none, retain := [] }
+private abbrev n1Prog : Prog := { pipes := [n1PINNER, n1PP] }
+private abbrev n1Top : CallStm := { id := n1NP, callee := n1PP.callee, binds := [], wild := none, mods := noMods }
+/-- GEN returns `[{"k":1},{"l":2}]`, ECHO and CONS return their input -/
+private abbrev n1Oracle : Oracle := fun name ins =>
+  if name == n1NGEN then .obj [(n1Kres, .arr [.obj [([0x6B], .num (.int 1))], .obj [([0x6C], .num (.int 2))]])]
+  else .obj [(n1Kres, (ins.lookup n1Kwhat).getD .null)]
+
+/-- NEGATIVE WITNESS for the model (not for the theorem): every compile-time rule
+and every hypothesis of rounds 5–7 holds (`okPipe` of both pipelines, `validTop`,
+`okStm` of the top-level call, `fits`), the model's checked run succeeds – and
+the only thing that now keeps the program out of `program_sound_partial` is the
+hypothesis about composed bindings (`umapPipe`: `what = split INNER.r` binds an
+output of a nested PIPELINE to an untyped map). -/
+theorem n1_program_outside_model :
+    n1Prog.pipes.all (okPipe n1Prog) = true ∧ validTop n1Top = true ∧
+    (match checkStm emptyEnv n1Top with | some sh => okStm n1Prog emptyEnv n1Top sh | none => false) = true ∧
+    fits n1Prog 3 n1Top.callee = true ∧
+    (runProgram n1Prog n1Oracle 3 n1Top).map (fun s => s.2.calls) =
+      .ok [(n1NP, .obj [(n1Kres, .arr [.obj [([0x6B], .num (.int 1))], .obj [([0x6C], .num (.int 2))]])])] ∧
+    umapPipe n1Prog true n1PP = false ∧ progOk n1Prog n1Top = false :=
+  ⟨by decide, by decide, by decide, by decide, rfl, by decide, by decide⟩
+
+/-- the same consumer bound to an output of a STAGE (`what = split GEN.r`, which the
+real `Path` resolves since ffee4be) stays inside the theorem -/
+example :
+    let pP' : Pipeline := { n1PP with calls := [
+      { id := n1NGEN, callee := n1StGEN, binds := [], wild := none, mods := noMods },
+      { id := n1NCONS, callee := n1StCONS, binds := [(n1Kwhat, .split (.call n1NGEN [n1Kres]))], wild := none, mods := noMods }] }
+    progOk { pipes := [pP'] } { n1Top with callee := pP'.callee } = true := by decide
 
 end Props.C07
